@@ -80,7 +80,27 @@ fn gen_list(rng: &mut Rng) -> Vec<f64> {
             (rng.range(-50, 560) as f64, rng.range(-50, 430) as f64)
         }
     };
-    match rng.below(12) {
+    match rng.below(15) {
+        12 => {
+            // a huge Bezier (> 100 control points): grows every scratch buffer far beyond what later segments need
+            let n = 101 + rng.below(80);
+            let mut v = vec![(1, 0.0, 0.0)];
+            for _ in 1..n {
+                let p = c(rng);
+                v.push((-1, p.0, p.1));
+            }
+            flat(&v)
+        }
+        13 => {
+            // doubled final control point (the osu-stable "no extension" case)
+            let (a, b) = (c(rng), c(rng));
+            flat(&[(*rng.pick(&[2, 1, 0]), 0.0, 0.0), (-1, a.0, a.1), (-1, b.0, b.1), (-1, b.0, b.1)])
+        }
+        14 => {
+            // short Catmull / linear pieces between big ones
+            let a = c(rng);
+            flat(&[(*rng.pick(&[0, 0, 2]), 0.0, 0.0), (-1, a.0, a.1)])
+        }
         0 => vec![],
         1 => flat(&[(*rng.pick(&[2, 1, 0, 3]), 0.0, 0.0)]),
         2 => flat(&[(2, 0.0, 0.0), (-1, 100.0, 0.0)]),
@@ -174,6 +194,32 @@ fn decoded_count(tier: Tier) -> u64 {
 fn exec_decoded(plan: &Plan, st: &mut Stats) -> Result<(), Violation> {
     use rosu_map::Beatmap;
     let Ok(text) = std::str::from_utf8(&plan.data) else { return Ok(()) };
+    // mode-agnostic part: for every slider, dropping the cached curve and recomputing it must not change anything
+    {
+        let mut map: rosu_map::Beatmap = rosu_map::from_bytes(&plan.data).map_err(|e| Violation::new("C18/decode-error", "err", e.to_string()))?;
+        for (k, h) in map.hit_objects.iter_mut().enumerate() {
+            let HitObjectKind::Slider(ref mut sl) = h.kind else { continue };
+            let cached = {
+                let c = sl.path.curve();
+                snap(c.path(), c.lengths())
+            };
+            let mut twin = sl.path.clone();
+            twin.clear_curve();
+            let recomputed = {
+                let c = twin.curve();
+                snap(c.path(), c.lengths())
+            };
+            let b = {
+                let mut ub = CurveBuffers::default();
+                let c = twin.borrowed_curve(&mut ub);
+                snap(c.path(), c.lengths())
+            };
+            st.inc("ops.cache-vs-recomputed");
+            if cached != recomputed || b != recomputed {
+                return Err(Violation::new("C18/cache-differs-from-recomputation", "stale-cache", format!("slider #{k}: the curve cached by the decoder has {} path points, the same SliderPath recomputes {} after clear_curve() ({} control points)", cached.path.len(), recomputed.path.len(), sl.path.control_points().len())));
+            }
+        }
+    }
     // the path's mode is the mode known when its line was parsed: require [General]'s Mode before [HitObjects]
     if let (Some(m), Some(h)) = (text.find("Mode"), text.find("[HitObjects]")) {
         if m > h {
